@@ -7,6 +7,7 @@ mod util;
 mod world;
 mod bytesapi;
 mod bigvalue;
+mod kindmix;
 mod oneshotip;
 #[cfg(not(feature = "force-inprocess"))]
 mod eofrace;
@@ -47,6 +48,7 @@ fn main() {
         "world" => world::run(&args[2..]),
         "bytesapi" => bytesapi::run(&args[2..]),
         "bigvalue" => bigvalue::run(&args[2..]),
+        "kindmix" => kindmix::run(&args[2..]),
         "oneshotip" => oneshotip::run(&args[2..]),
         #[cfg(not(feature = "force-inprocess"))]
         "eofrace" => eofrace::run(&args[2..]),
